@@ -7,6 +7,12 @@
 //	{"pkg","file","line","func","expr","key","elem","body":{"appends":bool,"returns":bool,
 //	 "breaks":bool,"writes_map":bool,"calls":[...]},"sorted_after":bool}
 //
+// and one JSON line per package-level variable that some function other than init() writes
+// (assignment to it or through it, & taken, delete/clear, or a method call on it unless it is a
+// lock): the process-level state a fresh VM could inherit —
+//
+//	{"kind":"var","pkg","file","line","name","type","writes":[{"func","how"}...]}
+//
 // `sorted_after` = the enclosing function calls sort.* / slices.Sort* after the loop (the usual
 // collect-then-sort idiom, order-insensitive). Classification proper is done by the check.
 package main
@@ -119,6 +125,7 @@ func main() {
 		done[lp.ImportPath] = tp
 		if target {
 			walk(repo, lp, fset, files, info)
+			walkVars(repo, lp, fset, files, info)
 		}
 	}
 }
@@ -274,4 +281,151 @@ func walk(repo string, lp *listPkg, fset *token.FileSet, files []*ast.File, info
 
 func shortType(t types.Type) string {
 	return types.TypeString(t, func(p *types.Package) string { return p.Name() })
+}
+
+// ---------------------------------------------------------------------------- package-level variables
+type varWrite struct {
+	Func string `json:"func"`
+	How  string `json:"how"`
+}
+
+type varSite struct {
+	Kind   string     `json:"kind"`
+	Pkg    string     `json:"pkg"`
+	File   string     `json:"file"`
+	Line   int        `json:"line"`
+	Name   string     `json:"name"`
+	Type   string     `json:"type"`
+	Writes []varWrite `json:"writes"`
+}
+
+func rootIdent(e ast.Expr) *ast.Ident {
+	for {
+		switch x := e.(type) {
+		case *ast.Ident:
+			return x
+		case *ast.SelectorExpr:
+			e = x.X
+		case *ast.IndexExpr:
+			e = x.X
+		case *ast.StarExpr:
+			e = x.X
+		case *ast.ParenExpr:
+			e = x.X
+		case *ast.SliceExpr:
+			e = x.X
+		default:
+			return nil
+		}
+	}
+}
+
+func isLockType(t types.Type) bool {
+	s := types.TypeString(t, nil)
+	s = strings.TrimPrefix(s, "*")
+	return s == "sync.Mutex" || s == "sync.RWMutex" || s == "sync.Once" || s == "sync.WaitGroup"
+}
+
+func walkVars(repo string, lp *listPkg, fset *token.FileSet, files []*ast.File, info *types.Info) {
+	vars := map[types.Object]*varSite{}
+	var order []types.Object
+	for _, f := range files {
+		fname := fset.Position(f.Pos()).Filename
+		if strings.HasSuffix(fname, "_test.go") {
+			continue
+		}
+		rel, _ := filepath.Rel(repo, fname)
+		for _, d := range f.Decls {
+			gd, ok := d.(*ast.GenDecl)
+			if !ok || gd.Tok != token.VAR {
+				continue
+			}
+			for _, sp := range gd.Specs {
+				vs, ok := sp.(*ast.ValueSpec)
+				if !ok {
+					continue
+				}
+				for _, id := range vs.Names {
+					obj := info.Defs[id]
+					if obj == nil || id.Name == "_" {
+						continue
+					}
+					vars[obj] = &varSite{Kind: "var", Pkg: lp.ImportPath, File: rel, Line: fset.Position(id.Pos()).Line,
+						Name: id.Name, Type: shortType(obj.Type())}
+					order = append(order, obj)
+				}
+			}
+		}
+	}
+	pkgVar := func(e ast.Expr) *varSite {
+		id := rootIdent(e)
+		if id == nil {
+			return nil
+		}
+		if obj := info.Uses[id]; obj != nil {
+			return vars[obj]
+		}
+		return nil
+	}
+	for _, f := range files {
+		fname := fset.Position(f.Pos()).Filename
+		if strings.HasSuffix(fname, "_test.go") {
+			continue
+		}
+		for _, d := range f.Decls {
+			fd, ok := d.(*ast.FuncDecl)
+			if !ok || fd.Body == nil || (fd.Recv == nil && fd.Name.Name == "init") {
+				continue
+			}
+			fn := funcName(fd)
+			seen := map[string]bool{}
+			add := func(v *varSite, how string) {
+				if v == nil || seen[v.Name+"\x00"+how] {
+					return
+				}
+				seen[v.Name+"\x00"+how] = true
+				v.Writes = append(v.Writes, varWrite{Func: fn, How: how})
+			}
+			ast.Inspect(fd.Body, func(n ast.Node) bool {
+				switch x := n.(type) {
+				case *ast.AssignStmt:
+					for _, l := range x.Lhs {
+						if _, direct := l.(*ast.Ident); direct {
+							add(pkgVar(l), "assign")
+						} else {
+							add(pkgVar(l), "assign-through")
+						}
+					}
+				case *ast.IncDecStmt:
+					add(pkgVar(x.X), "assign")
+				case *ast.UnaryExpr:
+					if x.Op == token.AND {
+						add(pkgVar(x.X), "address-taken")
+					}
+				case *ast.CallExpr:
+					if id, ok := x.Fun.(*ast.Ident); ok && (id.Name == "delete" || id.Name == "clear") && len(x.Args) > 0 {
+						add(pkgVar(x.Args[0]), id.Name)
+					}
+					if se, ok := x.Fun.(*ast.SelectorExpr); ok {
+						if v := pkgVar(se.X); v != nil {
+							if tv, ok := info.Types[se.X]; ok && tv.Type != nil && !isLockType(tv.Type) {
+								if _, isPkg := info.Uses[rootIdent(se.X)].(*types.PkgName); !isPkg {
+									add(v, "call:"+se.Sel.Name)
+								}
+							}
+						}
+					}
+				}
+				return true
+			})
+		}
+	}
+	for _, obj := range order {
+		v := vars[obj]
+		if len(v.Writes) == 0 {
+			continue
+		}
+		b, _ := json.Marshal(v)
+		fmt.Println(string(b))
+	}
 }
